@@ -511,10 +511,21 @@ impl Prop for C10 {
          without it, or after a command name; distinct by (definition, line, position)."
     }
     fn check(&self, bytes: &[u8], ctx: &mut Ctx) -> Verdict {
+        // one case in eight: a choice between a positional branch and subcommands (altcmd.rs)
+        if bytes.first().map_or(false, |b| b % 8 == 7) {
+            let c = crate::altcmd::decode(&bytes[1..], true);
+            if c.argv.len() >= 2 {
+                ctx.nontrivial(fnv_str(&format!("{:?}{:?}", c.level, c.argv)));
+            }
+            return crate::altcmd::check(&c, ctx);
+        }
         let case = decode(bytes);
         check_line(&case.level, &case.argv, !case.mutations.is_empty(), ctx)
     }
     fn describe(&self, bytes: &[u8]) -> Value {
+        if bytes.first().map_or(false, |b| b % 8 == 7) {
+            return crate::altcmd::describe(&crate::altcmd::decode(&bytes[1..], true));
+        }
         let case = decode(bytes);
         json!({
             "definition": show_level(&case.level),
@@ -524,6 +535,10 @@ impl Prop for C10 {
     }
     fn regressions(&self) -> Vec<Regression> {
         vec![
+            Regression {
+                name: "help-of-command-under-fallback-in-a-choice-with-positionals",
+                run: crate::altcmd::reg_fallback_cmd_help,
+            },
             Regression {
                 name: "help-after-failing-adjacent-group",
                 run: reg_adjacent,
